@@ -38,7 +38,8 @@ TvseCase(r) == r.t_ok /\ ~AllStatic(r.dirs)                   \* Targets accepte
 OpOk(r) ==
   CASE r.op = "span"  -> /\ spans[r.h].st = "none"
                          /\ r.reply \in {W(b, r.lvl) : b \in SpanAllowed([lvl |-> r.lvl, tgt |-> r.tgt, name |-> r.name], r.k)}
-                         /\ (fhint # 9 /\ r.reply) => r.lvl <= fhint
+                         \* (no hint clause for spans: a span selected by a span-scoped directive is answered `always` at registration
+                         \* whatever its level - one of the allowed answers above - so it may be let through above the hint)
     [] r.op = "event" -> /\ r.reply = W(EventEnabled(EventMeta(r.lvl, r.tgt, r.k)), r.lvl)
                          /\ (fhint # 9 /\ r.reply) => r.lvl <= fhint
     [] r.op = "all"   -> \A lvl \in 1..5, ti \in 1..4, kb \in BOOLEAN :
